@@ -47,7 +47,7 @@ def has_finite(got):
 def cases(ctx):
     """equal shares of integrated k = 2/4/6 and differential k = 2/4; three quarters of every share are samples on which the
     real code returns a finite error (the fractional powers of a negative cumulant give NaN on about half of all samples)"""
-    n = 20 if ctx.quick else MAX_CASES
+    n = 10 if ctx.quick else MAX_CASES
     classes = [("int", 2), ("int", 4), ("int", 6), ("diff", 2), ("diff", 4)]
     quota = {cl: n // len(classes) for cl in classes}
     loose = {cl: quota[cl] // 4 for cl in classes}
